@@ -59,6 +59,12 @@ fn frame(base: &[u8], new: &[u8], ptype: u32, unpacked_len: usize, payload: Vec<
     }
 }
 
+/// a COPY patch that turns `base` into the explicit bytes `new` (patch-history universes, where the
+/// new content is not a blob descriptor)
+pub fn copy_patch_bytes(base: &[u8], new: &[u8], incl_header: bool) -> Vec<u8> {
+    frame(base, new, bp::T_COPY, new.len(), new.to_vec(), incl_header).to_bytes()
+}
+
 impl PatchCase {
     pub fn build(&self) -> BuiltPatch {
         self.build_on(self.base.bytes())
